@@ -91,7 +91,13 @@ class Module:
         fs = [x for x in d if isinstance(x, (ast.FunctionDef, ast.AsyncFunctionDef))]
         if len(fs) <= index:
             raise AnalysisError(f"anchor missing: function {self.rel}::{qual}[{index}]")
-        return fs[index]  # type: ignore
+        if os.environ.get("VT_NO_EXPAND"):
+            return fs[index]  # type: ignore
+        # calls to helpers that are not units known to the rules are expanded in place (vt/expand.py)
+        if getattr(self, "_expander", None) is None:
+            from .expand import Expander
+            self._expander = Expander(self)
+        return self._expander.expand(qual, index, fs[index])  # type: ignore
 
     def cls(self, qual: str) -> ast.ClassDef:
         d = self.get_all(qual)
